@@ -1146,6 +1146,27 @@ func (f *Frame) loopHeader(li *LoopInfo, st *State, phiEntry map[*ssa.Phi]Val) {
 	}
 }
 
+// autoInvariants: facts about compiler-generated range counters (checked like any other invariant).
+func autoInvariants(li *LoopInfo) []*Clause {
+	var cs []*Clause
+	for _, in := range li.Header.Instrs {
+		p, ok := in.(*ssa.Phi)
+		if !ok {
+			break
+		}
+		if _, isInt := isIntType(p.Type()); !isInt {
+			continue
+		}
+		switch {
+		case strings.HasPrefix(p.Comment, "rangeindex"):
+			cs = append(cs, &Clause{Text: "__iter >= -1 (auto)", Expr: &SBinary{">=", &SIdent{"__iter"}, &SUnary{"-", &SLit{big.NewInt(1)}}}})
+		case strings.HasPrefix(p.Comment, "rangeint"):
+			cs = append(cs, &Clause{Text: "__iter >= 0 (auto)", Expr: &SBinary{">=", &SIdent{"__iter"}, &SLit{big.NewInt(0)}}})
+		}
+	}
+	return cs
+}
+
 func (f *Frame) invariants(li *LoopInfo) []*Clause {
 	var cs []*Clause
 	if f.contract != nil {
@@ -1181,6 +1202,16 @@ func (f *Frame) varAt(b *ssa.BasicBlock, name string, pos token.Pos, st *State, 
 			if p.Name()+"0" == name {
 				if f.inlineArgs != nil {
 					return f.inlineArgs[i], true
+				}
+				return f.val(p, p.Type()), true
+			}
+		}
+	}
+	if name == "__iter" {
+		for _, in := range b.Instrs {
+			if p, ok := in.(*ssa.Phi); ok && strings.HasPrefix(p.Comment, "range") {
+				if phiVal != nil {
+					return phiVal(p), true
 				}
 				return f.val(p, p.Type()), true
 			}
